@@ -1,11 +1,8 @@
 package mpb
 
 import (
-	"errors"
 	"io"
 )
-
-var vErrIO = errors.New("underlying i/o error")
 
 // underlying readers of the four dynamic shapes
 type vReader struct {
